@@ -29,6 +29,22 @@ impl AbsIter {
     { unimplemented!() }
 }
 
+// R1b: `Box::new(E)` where E is an iterator struct under contract (or an already boxed iterator) becomes
+// `AbsIter::wrap(E)`: boxing does not change the sequence an iterator yields. What that sequence is — `remaining()` —
+// is NOT trusted: it is the function that the struct's `next` is verified to pop (units fixedrep, varrep, choice, ...).
+pub trait IterView {
+    spec fn remaining(&self) -> Seq<usize>;
+}
+impl IterView for AbsIter {
+    open spec fn remaining(&self) -> Seq<usize> { self@ }
+}
+impl AbsIter {
+    #[verifier::external_body]
+    pub fn wrap<T: IterView>(it: T) -> (r: AbsIter)
+        ensures r@ == it.remaining(),
+    { unimplemented!() }
+}
+
 // R3: error *messages* are in no property; the variant is kept.
 #[verifier::external_body]
 pub fn verif_msg() -> (r: String) { unimplemented!() }
